@@ -585,6 +585,10 @@ func genC06(e *emitter, r *rng, tier string) {
 	e.emit("empty", opDgram(nil))
 }
 
+// registeredHeaders: (packet type, count/FMT) of the registered feedback formats and the count-free types
+var registeredHeaders = [][2]byte{{200, 0}, {201, 0}, {202, 0}, {203, 0}, {204, 0}, {207, 0},
+	{205, 1}, {205, 5}, {205, 11}, {205, 15}, {206, 1}, {206, 2}, {206, 4}, {206, 15}}
+
 // ---- C07 ----
 func genC07(e *emitter, r *rng, tier string) {
 	bodies := []int{0, 4, 8, 16, 20, 24}
@@ -631,6 +635,19 @@ func genC07(e *emitter, r *rng, tier string) {
 		other := decoderNames[r.intn(14)]
 		if other != name {
 			e.emit("foreign-"+other, opDec(other, b))
+		}
+		// header transplant: this type's valid encoding under the type/count of ANOTHER registered type, handed to
+		// this type's own decoder: only the header guard can tell that it is not its packet
+		if len(b) >= 4 && name != "RawPacket" && name != "CompoundPacket" {
+			reg := registeredHeaders[r.intn(len(registeredHeaders))]
+			t := append([]byte(nil), b...)
+			if t[1] != reg[0] || t[0]&0x1F != reg[1] {
+				if reg[0] >= 205 && reg[0] <= 206 {
+					t[0] = t[0]&0xE0 | reg[1]
+				}
+				t[1] = reg[0]
+				e.emit("transplant-"+name, opDec(name, t))
+			}
 		}
 	}
 }
@@ -750,6 +767,28 @@ func genC11(e *emitter, r *rng, tier string) {
 			default:
 				ps = append(ps, kindPacket(r, r.intn(10)))
 			}
+		}
+		if r.chance(1, 6) && len(ps) > 0 {
+			// a member that cannot be marshalled (too many reports, SDES text over 255 octets, SDES item of type 0),
+			// somewhere after the packets that make the compound valid
+			var bad rtcp.Packet
+			switch r.intn(3) {
+			case 0:
+				rr := &rtcp.ReceiverReport{SSRC: r.u32()}
+				for k := 0; k < 32; k++ {
+					rr.Reports = append(rr.Reports, rtcp.ReceptionReport{SSRC: r.u32()})
+				}
+				bad = rr
+			case 1:
+				bad = &rtcp.SourceDescription{Chunks: []rtcp.SourceDescriptionChunk{{Source: r.u32(), Items: []rtcp.SourceDescriptionItem{{Type: rtcp.SDESCNAME, Text: string(make([]byte, 256))}}}}}
+			default:
+				bad = &rtcp.SourceDescription{Chunks: []rtcp.SourceDescriptionChunk{{Source: r.u32(), Items: []rtcp.SourceDescriptionItem{{Type: rtcp.SDESEnd, Text: "x"}}}}}
+			}
+			pos := len(ps)
+			if r.chance(1, 2) {
+				pos = 1 + r.intn(len(ps))
+			}
+			ps = append(ps[:pos:pos], append([]rtcp.Packet{bad}, ps[pos:]...)...)
 		}
 		e.emit("random", op1("cp", packetsSx(ps)))
 		if b := encOf(&rtcp.CompoundPacket{}); b == nil {
